@@ -21,7 +21,8 @@ ASSUMPTIONS = ['TCP framing: u16 little-endian length of the CPX wire data, then
                'UART framing: 0xFF, length, wire data, XOR checksum; 0xFF 0x00 is the clear-to-send acknowledgement',
                'receiver queues exist before packets arrive (the router drops packets for functions nobody asked for yet)']
 REQUIRED = ['mon.codec', 'mon.bad_version', 'mon.short_streams_all_cuts', 'mon.long_streams', 'mon.router_packets',
-            'mon.tcp_crtp_up', 'mon.tcp_crtp_down', 'mon.serial_crtp_up', 'mon.serial_crtp_down']
+            'mon.tcp_crtp_up', 'mon.tcp_crtp_down', 'mon.serial_crtp_up', 'mon.serial_crtp_down',
+            'mon.router_streams_with_rejected_frames']
 EXHAUSTIVE = {'quick': False, 'thorough': False}
 EXHAUSTIVE_NOTE = 'cut patterns of short streams (<= 14 bytes) are enumerated completely'
 DESC_TIMEOUT = 900
@@ -278,6 +279,19 @@ def run_router(desc, ctx):
     funcs = sorted({p[2] for p in pk})
     listen = set(rnd.sample(funcs, max(1, len(funcs) - 1)))
     s = stream_of(pk)
+    if desc['seed'] % 2 == 0:
+        # frames of an unsupported version in between (another firmware generation on the same wire): they are
+        # rejected, everything else is still delivered
+        s = b''
+        nbad = 0
+        for q in pk:
+            if rnd.random() < 0.15:
+                w = wire(rnd.choice(TARGETS), rnd.choice(TARGETS), rnd.choice(FUNCS), False,
+                         bytes(rnd.getrandbits(8) for _ in range(rnd.randint(0, 10))), version=rnd.choice((1, 2, 3)))
+                s += struct.pack('<H', len(w)) + w
+                nbad += 1
+            s += stream_of([q])
+        ctx.count('mon.router_streams_with_rejected_frames', 1 if nbad else 0)
     cuts = sorted(rnd.sample(range(1, len(s)), min(len(s) - 1, 40)))
     ob = {'got': {f: [] for f in listen}, 'err': None}
 
